@@ -74,7 +74,7 @@ func init() {
 		Real:   nReal, Stubbed: nStub, Assume: nAssume,
 	})
 	defCheck(&checkDef{Prop: "C09", Level: "exploration",
-		Scens:  []scenBudget{{"nitro_iter", 20000, 700000}},
+		Scens:  []scenBudget{{"nitro_iter", 18000, 700000}, {"backup", 3000, 100000}},
 		Rule:   nitroRule("cursor programs (SeekFirst, Seek(present/absent/below min/above max), Next x n, Refresh, SetRefreshRate) on any open snapshot while older/newer versions are physically present and writers/GC run; oracle: model cursor over the frozen sorted list, same for every refresh setting"),
 		Real:   nReal, Stubbed: nStub, Assume: nAssume,
 		WarnProbe: []string{"cursor_programs"},
@@ -129,7 +129,7 @@ func init() {
 	c14.Scens = append(c14.Scens, scenBudget{"backup", 4000, 120000})
 
 	defCheck(&checkDef{Prop: "C15", Level: "exploration",
-		Scens:  []scenBudget{{"sliter", 40000, 1500000}},
+		Scens:  []scenBudget{{"sliter", 40000, 1500000}, {"sl", 20000, 500000}},
 		Rule:   "one evaluation = one plan: 2-6 stable items interleaved with churn keys, each churn key owned by one of 1-3 mutator tasks (so its possibly/definitely-present windows are known exactly from the stamped history), 1-2 iterator tasks running scans (SeekFirst or Seek(x), to the end or n steps, refresh interval, explicit Refresh, Pause/Resume), mutators aiming at the node the iterator stands on and its predecessor; oracle R1-R4 over the recorded history with every overlap resolved in favour of the code; non-trivial = a preemption inside an operation; distinct = distinct trace hash",
 		Real:   slReal, Stubbed: slStub,
 		Assume: []string{"items count as returned when the caller reads them after Seek/Next (the usual for-loop), not after Refresh"},
